@@ -138,17 +138,30 @@ def _set(obj, attr, val):
     setattr(obj, attr, val)
 
 
-def install(bitstruct_model, symbolic_encode_state=True, pure_model=None):
+def install(bitstruct_model, symbolic_encode_state=True, pure_model=None, extra_modules=None):
     """rebinding for every odxtools module currently imported.  odxtools.isotp_state_machine
-    imports the pure-python `bitstruct` unconditionally, so it gets the "py" variant."""
+    imports the pure-python `bitstruct` unconditionally, so it gets the "py" variant.
+    extra_modules: a second copy of the library ({name: module}, see harness/c17.py)"""
     assert not _active["on"]
     import odxtools  # noqa
-    import odxtools.encodestate as es
-    import odxtools.decodestate as ds
-    import odxtools.odxtypes as ot
+    import odxtools.encodestate  # noqa
+    import odxtools.decodestate  # noqa
+    import odxtools.odxtypes  # noqa
     import odxtools.isotp_state_machine  # noqa
-    for name, mod in list(sys.modules.items()):
-        if not (name == "odxtools" or name.startswith("odxtools.")) or mod is None:
+    _install_on({k: v for k, v in sys.modules.items()
+                 if (k == "odxtools" or k.startswith("odxtools.")) and v is not None},
+                bitstruct_model, symbolic_encode_state, pure_model)
+    if extra_modules:
+        _install_on(extra_modules, bitstruct_model, symbolic_encode_state, pure_model)
+    _active["on"] = True
+
+
+def _install_on(modules, bitstruct_model, symbolic_encode_state, pure_model):
+    es = modules["odxtools.encodestate"]
+    ds = modules["odxtools.decodestate"]
+    ot = modules["odxtools.odxtypes"]
+    for name, mod in list(modules.items()):
+        if mod is None:
             continue
         for k, v in _SHIMS.items():
             if k == "float" and name == "odxtools.odxtypes":
@@ -156,7 +169,8 @@ def install(bitstruct_model, symbolic_encode_state=True, pure_model=None):
             _set(mod, k, v)
     for mod in (es, ds):
         _set(mod, "bitstruct", bitstruct_model)
-    _set(sys.modules["odxtools.isotp_state_machine"], "bitstruct", pure_model or bitstruct_model)
+    if "odxtools.isotp_state_machine" in modules:
+        _set(modules["odxtools.isotp_state_machine"], "bitstruct", pure_model or bitstruct_model)
 
     if symbolic_encode_state:
         orig_post = es.EncodeState.__post_init__
@@ -187,7 +201,6 @@ def install(bitstruct_model, symbolic_encode_state=True, pure_model=None):
         return orig_make_from(self, value)
 
     _set(ot.DataType, "make_from", make_from)
-    _active["on"] = True
 
 
 def uninstall():
